@@ -376,6 +376,13 @@ TIME_FILE_FAMILIES = {
     "debug_fields_in_file": lambda n: "x = f'{a=}'\n" * n,
     "errors_text_in_file": lambda n: "x = 1\n" * n + "y = = 2\n",
 }
+# CPU time of a whole parse (work after the last token: passes over the finished tree)
+TIME_PARSE_FAMILIES = {
+    # many nodes on one long non-ASCII line: every node's columns are converted to byte offsets
+    "nonascii_names_on_one_line": lambda n: "x = [" + ", ".join("\u00e9%d" % i for i in range(n // 8)) + "]\n",
+    "nonascii_names_many_lines": lambda n: "".join("\u00e9%d = '\u00fc'\n" % i for i in range(n // 8)),
+    "nonascii_identifiers_nfkc": lambda n: "x = [" + ", ".join("\ufb01%d" % i for i in range(n // 8)) + "]\n",
+}
 # finding F18e: the search-path pattern scans to the end of the line from every backtick
 TIME_KNOWN = {"escaped_backticks_in_macro": "F18e"}
 
@@ -415,7 +422,7 @@ class _CountingFile:
 
     def read(self, *a):
         data = self._f.read(*a)
-        self._c[0] += data.count("\n") + 1
+        self._c[0] += data.count(b"\n" if isinstance(data, bytes) else "\n") + 1
         return data
 
     def readlines(self, *a):
@@ -449,6 +456,11 @@ def run_file_family(acc, name, sizes):
     real_std_open = getattr(std, "open", None)
     if real_std_open is not None:
         std.open = lambda file, *a, **k: _CountingFile(real_std_open(file, *a, **k), counter)
+    # ... or read it in one piece through pathlib, which goes through io.open
+    import io
+
+    real_io_open = io.open
+    io.open = lambda file, *a, **k: _CountingFile(real_io_open(file, *a, **k), counter) if str(file).endswith("t.xsh") else real_io_open(file, *a, **k)
     try:
         for n in [max(50, x // 10) for x in sizes]:
             src = TIME_FILE_FAMILIES[name](n)
@@ -465,6 +477,7 @@ def run_file_family(acc, name, sizes):
             acc.nontrivial(base.h64("file", name, n))
             series.append((n, counter[0]))
     finally:
+        io.open = real_io_open
         del sh.open, tk.open
         if real_std_open is not None:
             std.open = real_std_open
@@ -486,6 +499,9 @@ def run_time_family(acc, name, sizes):
         if name in TIME_FAMILIES:
             src = TIME_FAMILIES[name](n)
             t = _cpu(lambda: sum(1 for _ in generate_tokens(src)))
+        elif name in TIME_PARSE_FAMILIES:
+            src = TIME_PARSE_FAMILIES[name](n)
+            t = _cpu(lambda: cls.parse_string(src, mode="exec"))
         else:
             # file families have a logical observable: how many lines the parser reads from the file (a spy on the two modules' open())
             return run_file_family(acc, name, sizes)
@@ -562,7 +578,7 @@ def plan(tier, seed):
     per = 6
     shards = [{"items": items[i : i + per], "nest_sizes": nest_sizes, "flat_sizes": flat_sizes} for i in range(0, len(items), per)]
     time_sizes = [1000, 2000, 4000, 8000, 16000] if q else [2000, 4000, 8000, 16000, 32000, 64000]
-    for name in list(TIME_FAMILIES) + list(TIME_FILE_FAMILIES):
+    for name in list(TIME_FAMILIES) + list(TIME_PARSE_FAMILIES) + list(TIME_FILE_FAMILIES):
         shards.append({"time_items": [name], "time_sizes": time_sizes})
     return {"shards": shards, "shard_timeout": 2400}
 
